@@ -318,6 +318,25 @@ func (ex *Exec) Run() {
 			ex.assume(ex.evalBool(env, cl.E, cl))
 		}
 	}
+	// entry lemmas: proved from the preconditions alone (a small query), then available to every later obligation
+	if ex.FC != nil {
+		for _, cl := range ex.FC.Clauses {
+			if cl.Kind != "lemma" {
+				continue
+			}
+			env := ex.envFor(fr, st, st, nil)
+			for i, p := range fn.Params {
+				env.vars[p.Name()] = args[i]
+			}
+			g := ex.evalBool(env, cl.E, cl)
+			label := cl.Label
+			if label == "" {
+				label = "lemma"
+			}
+			ex.obligeAlways("lemma", label, c.True(), g, fn.Pos())
+			ex.assume(g)
+		}
+	}
 	// the entry state may have been touched lazily by requires evaluation: refresh snapshot
 	ex.entrySt = st.clone()
 	fr.entry = ex.entrySt
